@@ -444,9 +444,22 @@ impl<Writer: Write> Mp4Writer<Writer> {
     }
 
     pub(crate) fn max_end_pts(&self) -> Option<u64> {
+        // Largest presentation end over all samples: with reordered (B-frame) streams the
+        // sample that is presented last is not the one that was queued last.
         fn track_end(samples: &[SampleInfo], last_delta: Option<u32>) -> Option<u64> {
-            let last = samples.last()?;
-            Some(last.pts.saturating_add(u64::from(last_delta.unwrap_or(0))))
+            let last_index = samples.len().checked_sub(1)?;
+            samples
+                .iter()
+                .enumerate()
+                .map(|(index, sample)| {
+                    let duration = match sample.duration {
+                        Some(duration) => duration,
+                        None if index == last_index => last_delta.unwrap_or(0),
+                        None => 0,
+                    };
+                    sample.pts.saturating_add(u64::from(duration))
+                })
+                .max()
         }
 
         let video_end = track_end(&self.video_samples, self.video_last_delta);
